@@ -198,7 +198,12 @@ def r1cs_models(store):
         (r'^ark_r1cs_std::groups::curves::twisted_edwards::AffineVar::<.*>::new_variable_omit_(prime_order|on_curve)_check::', m_affine_alloc),
         (r'^<ark_r1cs_std::groups::curves::twisted_edwards::AffineVar<.*> as core::ops::(Add|AddAssign)(<.*>)?>::add(_assign)?$', m_affine_binop('add')),
         (r'^<ark_r1cs_std::groups::curves::twisted_edwards::AffineVar<.*> as core::ops::(Sub|SubAssign)(<.*>)?>::sub(_assign)?$', m_affine_binop('sub')),
-        (r'^core::cell::RefCell::<.*>::new$', m_refcell_new), (r'^core::cell::RefCell::<.*>::borrow(_mut)?$', m_refcell_borrow),
+        (r'^<ark_r1cs_std::groups::curves::twisted_edwards::AffineVar<.*> as ark_r1cs_std::groups::CurveVar<.*>>::zero$', lambda I, fr, fn, a: Agg('AffineVar', [FqVar(FE.const('Fq', 0), True), FqVar(FE.const('Fq', 1), True), Agg('PhantomData', [])])),
+        (r'^<ark_r1cs_std::groups::curves::twisted_edwards::AffineVar<.*> as ark_r1cs_std::groups::CurveVar<.*>>::is_zero$', lambda I, fr, fn, a: (lambda p: ok(BoolVar(fe_is_zero(I, p.fields[0].fe) and fe_eq(I, p.fields[1].fe, FE.const('Fq', 1)))))(I.deref(a[0]))),
+        (r'^<ark_r1cs_std::groups::curves::twisted_edwards::AffineVar<.*> as ark_r1cs_std::eq::EqGadget<.*>>::is_eq$', lambda I, fr, fn, a: (lambda p, q: ok(BoolVar(fe_eq(I, p.fields[0].fe, q.fields[0].fe) and fe_eq(I, p.fields[1].fe, q.fields[1].fe))))(I.deref(a[0]), I.deref(a[1]))),
+        (r'^core::cell::RefCell::<.*>::new$', m_refcell_new), (r'^core::cell::RefCell::<.*>::(borrow|borrow_mut|get_mut|as_ptr)$', m_refcell_borrow),
+        (r'^core::cell::RefCell::<.*>::into_inner$', lambda I, fr, fn, a: a[0].fields[0]),
+        (r'^core::cell::RefCell::<.*>::replace$', lambda I, fr, fn, a: (lambda old: (I.store(Ref(a[0].frame, a[0].local, list(a[0].path) + [0]), a[1]), old)[1])(mirsym.cp(I.deref(Ref(a[0].frame, a[0].local, list(a[0].path) + [0]))))),
         (r'^<core::cell::Ref(Mut)?<.*> as core::ops::Deref(Mut)?>::deref(_mut)?$', lambda I, fr, fn, a: a[0] if not isinstance(I.deref(a[0]), Ref) else I.deref(a[0])),
         (r'^core::result::Result::<.*>::unwrap_or$', m_unwrap_or), (r'^core::result::Result::<.*>::map::<', m_result_map),
         (r'^<.* as core::ops::FnOnce<.*>>::call_once$', m_fnonce),
@@ -393,6 +398,24 @@ def check_honest_gadgets(only=None):
             res, w = r['result']; b = res.fields[0].b
             obs.append(Ob(nm, 'proved' if b == w else 'violated', f'{b}', 0, 'mirsym/R1CS (honest)', None, None if b == w else {'kind': 'r1cs-honest', 'gadget': 'is_eq'}))
     if only in (None, 'is_eq'): guard('is_eq', iseq)
+    # ---- identity predicate of the outer variable, if the crate overrides CurveVar::is_zero (the trait default is is_eq(zero()))
+    def iszero():
+        items = _items()
+        its = [it for k, it in items.items() if it.kind == 'fn' and k.endswith('::is_zero') and it.impl_at and it.impl_at[0].startswith('src/ark_curve/r1cs/')]
+        for it in its:
+            outer = 'element.rs' in it.impl_at[0]
+            def body(I, h, items_, it=it, outer=outer):
+                x, y = FE.sym('Fq', 'x'), FE.sym('Fq', 'y')
+                v = _outer_var(I, items_, x, y, 'p') if outer else Agg('ark_curve::r1cs::inner::ElementVar', [Agg('AffineVar', [FqVar(x), FqVar(y), Agg('PhantomData', [])])])
+                h.locals['p'] = v
+                return I.call_item(it, [Ref(h, 'p', [])]), fe_is_zero(I, x)
+            items_, recs = run_r1cs(body, 'honest')
+            for r in recs:
+                nm = f'r1cs:{it.impl_at[0]}:{it.impl_at[1]} is_zero is `X == 0` [path {pathtag(r)}]'
+                if 'panic' in r: viol(nm, 'panics', r); continue
+                res, w = r['result']; b = res.fields[0].b
+                obs.append(Ob(nm, 'proved' if b == w else 'violated', f'{b}', 0, 'mirsym/R1CS (honest)', None, None if b == w else {'kind': 'r1cs-honest', 'gadget': 'is_zero'}))
+    if only in (None, 'is_eq'): guard('is_zero', iszero)
     return obs
 
 def check_lazy_forcing():
